@@ -26,7 +26,7 @@ CHECKS = {
  "C04": dict(
    category="exploration",
    technique="exhaustive token-sequence and nesting enumeration + random/mutated text fuzzing with crash-isolating workers; spans checked against the text; thorough tier adds coverage-guided fuzzing (cargo-fuzz/libFuzzer targets whose inputs are judged by the same oracle)",
-   text="Every sequence of up to 3 (quick) / 4 (thorough) tokens over one lexeme per token kind and every nesting construct at every depth up to the stated bound of 64 is enumerated; random soups, longer sequences and mutated shipped sources extend it. Each text runs the language server's and the CLI's entry points on an 8 MiB thread; panics are caught with their site, stack overflows and hangs are recovered from the worker journal, and every diagnostic span is checked against the text. The thorough tier additionally runs a libFuzzer campaign (fixed number of runs, 16 processes, starting corpus = the shipped sources) whose inputs are source texts; every saved input is re-judged by the plain worker and enters the same shrinking and known-finding classification.",
+   text="Every sequence of up to 3 (quick) / 4 (thorough) tokens over one lexeme per token kind and every nesting construct at every depth up to the stated bound of 64 is enumerated; random soups, longer sequences, module-structured texts, program templates with special expressions in unusual positions (space `holes`) and mutated shipped sources extend it. Each text runs the language server's and the CLI's entry points on an 8 MiB thread; panics are caught with their site, stack overflows and hangs are recovered from the worker journal, and every diagnostic span is checked against the text. The thorough tier additionally runs a libFuzzer campaign (fixed number of runs, 16 processes, starting corpus = the shipped sources) whose inputs are source texts; every saved input is re-judged by the plain worker and enters the same shrinking and known-finding classification.",
    note="Texts without diagnostics are not pushed through code generation here (C03's subject). Termination is a 20 s bound confirmed twice. Two open known findings (placeholder span 0..1, one unreachable!() site) are tolerated by signature and pinned by replay.",
    design="2.C04"),
  "C20": dict(
